@@ -105,5 +105,21 @@ def source (h : Heap) (n : Id) : Option Bytes :=
     | none => none
   else none
 
+/-- left fold over a list with the heap threaded through and early exit on error/panic -/
+def foldH {α β : Type} (f : Heap → α → β → Heap × Outcome β) : Heap → List α → β → Heap × Outcome β
+  | h, [], acc => (h, .ok acc)
+  | h, x :: xs, acc => match f h x acc with
+    | (h1, .ok acc') => foldH f h1 xs acc'
+    | (h1, .err e) => (h1, .err e)
+    | (h1, .panic s) => (h1, .panic s)
+
+/-- the same for pure steps -/
+def foldO {α β : Type} (f : α → β → Outcome β) : List α → β → Outcome β
+  | [], acc => .ok acc
+  | x :: xs, acc => match f x acc with
+    | .ok acc' => foldO f xs acc'
+    | .err e => .err e
+    | .panic s => .panic s
+
 end Heap
 end Ajson
